@@ -809,7 +809,8 @@ impl<'a> Gen<'a> {
                 }
             }
             2 => {
-                let nv = [self.rng.felt(), self.rng.felt(), self.rng.felt(), self.rng.felt()];
+                // sometimes the value already stored in the leaf (an update that changes nothing)
+                let nv = if self.rng.chance(1, 4) { leaves[idx as usize] } else { [self.rng.felt(), self.rng.felt(), self.rng.felt(), self.rng.felt()] };
                 out.push(op(format!("push.{}.{}.{}.{}", nv[0], nv[1], nv[2], nv[3]), 8));
                 out.push(op(r, 8));
                 out.push(op(format!("push.{}.{}", idx, depth), 4));
